@@ -53,6 +53,7 @@ func runC20(c *Ctx) {
 	c20Rescan(c, p)
 	c20Accum(c, p)
 	c20InputCopy(c, p)
+	c20SearchInLoop(c, p)
 }
 
 func c20Rescan(c *Ctx, p *core.Prog) {
